@@ -205,6 +205,10 @@ class FaultyFS:
                 return False
             if isinstance(expect, str):
                 expect = expect.encode("utf-8")
+            if b"\r" in cur:
+                # rope holds texts with \n line ends and translates at write time (write_file): a CRLF / CR file
+                # whose text is the recorded one is the expected state
+                cur = cur.replace(b"\r\n", b"\n").replace(b"\r", b"\n")
             return cur == expect
         return self._counted("write", reversible, lambda: self.real.write(path, data), partial_path=path)
 
